@@ -1,6 +1,6 @@
 (* C09 — property theorems.  Nothing but statements, `exact`, Print Assumptions. *)
 From FwdLib Require Import Bytes.
-From G09 Require Import Tables H2Relay Ledger Check Term Obligations PairBasics PairWin PairMisc.
+From G09 Require Import Tables H2Relay Ledger Check Term Obligations PairBasics PairWin PairMisc SizeProofs Witness.
 Open Scope N_scope.
 
 (* The split loop of data() terminates for every payload whenever the peer's
@@ -62,3 +62,38 @@ Print Assumptions T09_no_divergence.
 Theorem T09_data_diverges_on_zero : forall fuel id d es, d <> [] -> data_pieces fuel 0 id d es = None.
 Proof. exact data_pieces_zero. Qed.
 Print Assumptions T09_data_diverges_on_zero.
+
+(* No frame an endpoint is sent has a payload larger than a SETTINGS_MAX_FRAME_SIZE that endpoint has
+   announced (the largest value so far, 16384 initially): DATA is split and header blocks are chunked to
+   the limit in force when they are queued.  hist_small: SETTINGS and GOAWAY frames, which are forwarded
+   verbatim, are themselves at most 16384 octets. *)
+Theorem T09_frame_size :
+  forall (dstate estate : Type) dec enc dresize eresize (evs : list event) (d1 : dstate) (e1 : estate) d2 e2 x,
+    hist_small evs ->
+    sizes_within_announced x (snd (H2Relay.run dec enc dresize eresize (pair0 dstate estate d1 e1 d2 e2) evs)) = true.
+Proof. exact (fun ds es dec enc dr er => frame_size_from_start ds es dec enc dr er ob_settings_validated ob_initial_max_frame_is_rfc ob_headers_priority_len ob_push_promise_meta_len). Qed.
+Print Assumptions T09_frame_size.
+
+(* The stronger statement - within the limit the endpoint has most recently had acknowledged - is FALSE of
+   the code: a frame sized under an older, larger limit and held behind a closed window is released
+   unchanged after the endpoint lowered its limit and the change was acknowledged (known finding). *)
+Theorem T09_frame_size_at_emission_refuted :
+  hist_wf lowered_while_queued /\ hist_small lowered_while_queued /\
+  sizes_within_tolerated Sv (snd (H2Relay.run unit_dec unit_enc unit_res unit_res (pair0 unit unit tt tt tt tt) lowered_while_queued)) = false.
+Proof. exact (conj lowered_wf (conj lowered_small lowered_refutes)). Qed.
+Print Assumptions T09_frame_size_at_emission_refuted.
+
+(* T09_emit_within_window needs "at most one INITIAL_WINDOW_SIZE per SETTINGS frame": the relay applies
+   each value as it comes and releases frames in between (RFC 7540 6.5.3: "with no other frame processing
+   between values"), so a transient larger value lets DATA through that the final value does not cover. *)
+Theorem T09_emit_within_window_needs_single_initial_window :
+  windows_respected Sv (snd (H2Relay.run unit_dec unit_enc unit_res unit_res (pair0 unit unit tt tt tt tt) two_initial_windows)) = false.
+Proof. exact two_initial_refutes. Qed.
+Print Assumptions T09_emit_within_window_needs_single_initial_window.
+
+(* Non-vacuity: a history with blocking, a negative window and unblocking meets the hypotheses. *)
+Example T09_example :
+  hist_wf example_hist /\ hist_small example_hist /\
+  all_ok (snd (H2Relay.run unit_dec unit_enc unit_res unit_res (pair0 unit unit tt tt tt tt) example_hist)) /\
+  win_of (r_flow (toS (fst (H2Relay.run unit_dec unit_enc unit_res unit_res (pair0 unit unit tt tt tt tt) example_hist)))) 1 = 8%Z.
+Proof. exact (conj example_wf (conj example_small (conj example_ok example_window))). Qed.
